@@ -65,6 +65,6 @@ Proof.
   rewrite Hk in Hp. destruct (v_probe_rejected v); [reflexivity | discriminate].
 Qed.
 
-(** size of the domain this specification expects (37 handle-producing methods x 9 action classes, plus 38 receiver cells: a mutating method called through a shared reference or shared view; 9 action
+(** size of the domain this specification expects (43 handle-producing methods - the `unsafe` unchecked accessors included - x 9 action classes, plus 38 receiver cells: a mutating method called through a shared reference or shared view; 9 action
     classes, inapplicable combinations omitted) *)
-Definition expected_cells : nat := 275.
+Definition expected_cells : nat := 308.
